@@ -140,7 +140,7 @@ pub fn execute(case: &str) -> String {
             let m = MetadataMap::from_headers(h);
             let d2 = m.get_bin("k-bin").and_then(|x| x.to_bytes().ok()).map(|b| b.to_vec());
             let eq = m.get_bin("k-bin").map(|x| *x == mv).unwrap_or(false);
-            format!("{} {} {} {}", hex(&wire), d1.map(|b| hex(&b)).unwrap_or("!".into()), d2.map(|b| hex(&b)).unwrap_or("!".into()), eq as u8)
+            format!("w {} {} {} {}", hex(&wire), d1.map(|b| hex(&b)).unwrap_or("!".into()), d2.map(|b| hex(&b)).unwrap_or("!".into()), eq as u8)
         }
         Some("binw") => {
             let w = unhex(it.next().unwrap()).unwrap();
@@ -152,7 +152,7 @@ pub fn execute(case: &str) -> String {
             h.insert("k-bin", hv);
             let m = MetadataMap::from_headers(h);
             let x = m.get_bin("k-bin").unwrap();
-            format!("{} {}", x.to_bytes().map(|b| hex(&b)).unwrap_or("!".into()), x.is_empty() as u8)
+            format!("d {} {}", x.to_bytes().map(|b| hex(&b)).unwrap_or("!".into()), x.is_empty() as u8)
         }
         Some("bineq") => {
             let a = unhex(it.next().unwrap()).unwrap();
@@ -370,9 +370,7 @@ pub fn execute(case: &str) -> String {
                     _ => return "bad-case".into(),
                 }
             }
-            format!("{} map {} view {}", out.join(" "), render_map(&m.clone().into_headers()), typed_view(&m))
-                .trim_start()
-                .to_string()
+            format!("r {} map {} view {}", out.join(" "), render_map(&m.clone().into_headers()), typed_view(&m))
         }
         Some("hmap") => {
             // direct tie of the ordered-multimap model to http::HeaderMap
@@ -408,7 +406,7 @@ pub fn execute(case: &str) -> String {
                     _ => return "bad-case".into(),
                 }
             }
-            format!("{} map {}", out.join(" "), render_map(&m)).trim_start().to_string()
+            format!("r {} map {}", out.join(" "), render_map(&m))
         }
         Some("e2e") => {
             let mode = it.next().unwrap().to_string();
